@@ -19,6 +19,9 @@
   * `validHost_of_labels`, `validHost_too_long`, `validHost_non_ascii`, `sni_outright`
                               is_valid_host transcribed (idna fast path, 255 rule, trailing dot, split, label regex): SNI of
                               LDH/underscore names is reported outright, independent of the idna/ipaddress library answers
+  * `record_any_size_accepted`, `record_header_prefix_incomplete`
+                              records of every length 1…65535 are read (no 2^14 bound in the code; examples at 16384, 16385, 65535);
+                              a header announcing any such length with too few bytes after it is incomplete, never invalid
   * `dtls_fragment_invariant_partial` / `_counterexample`
                               DTLS handshake fragmentation (RFC 6347 §4.2.3): full statement `DtlsFragmentInvariant`
                               is FALSE for the current code (finding F-C13a); proved for unfragmented flights only.
@@ -1037,6 +1040,56 @@ example : validHost ⟨fun _ => true, fun _ => true⟩ [0x61, 0x20, 0x62] = true
     validHost ⟨fun _ => false, fun _ => false⟩ [0x61, 0x0a] = true ∧
     validHost ⟨fun _ => false, fun _ => true⟩ [0x78, 0x6e, 0x2d, 0x2d, 0x61] = false := by decide
 
+
+/-! ## record sizes: the code has NO bound below the length field's own maximum -/
+
+/-- **record_any_size_accepted** — `handshake_record_contents` accepts a record of EVERY length 1 … 65535 = 2^16-1
+    (the code checks only `record_size == 0`); in particular there is no 2^14 limit and nothing changes at
+    16383 / 16384 / 16385. A bound, if the code ever gets one, belongs here with its exact value. -/
+theorem record_any_size_accepted (dtls : Bool) (pre c rest : Bytes)
+    (hpre : pre.length + 2 = hdrLen dtls) (hstart : startsLike dtls pre = true)
+    (hpos : 0 < c.length) (hmax : c.length ≤ 65535) :
+    nextRecord dtls (mkRecord pre c ++ rest) = .ok (c, rest) :=
+  nextRecord_mkRecord dtls (pre, c) rest ⟨hpre, hstart, hpos, Nat.lt_succ_of_le hmax⟩
+
+/-- at the boundary: one record of exactly 2^14 = 16384 bytes, of 2^14 + 1, and of 65535 bytes -/
+example (rest : Bytes) : nextRecord false (mkRecord [0x16, 3, 3] (List.replicate 16384 7) ++ rest)
+    = .ok (List.replicate 16384 7, rest) :=
+  record_any_size_accepted false _ _ rest (by decide) (by decide) (by rw [List.length_replicate]; omega) (by rw [List.length_replicate]; omega)
+example (rest : Bytes) : nextRecord false (mkRecord [0x16, 3, 1] (List.replicate 16385 7) ++ rest)
+    = .ok (List.replicate 16385 7, rest) :=
+  record_any_size_accepted false _ _ rest (by decide) (by decide) (by rw [List.length_replicate]; omega) (by rw [List.length_replicate]; omega)
+example (rest : Bytes) : nextRecord true (mkRecord [0x16, 0xfe, 0xfd, 0, 0, 0, 0, 0, 0, 0, 0] (List.replicate 65535 7) ++ rest)
+    = .ok (List.replicate 65535 7, rest) :=
+  record_any_size_accepted true _ _ rest (by decide) (by decide) (by rw [List.length_replicate]; omega) (by rw [List.length_replicate]; omega)
+
+/-- **record_header_prefix_incomplete** — fewer bytes than a record header (5 / 13) never give a verdict, and a
+    complete, plausible header with a non-zero length followed by too few body bytes is "incomplete", never
+    "invalid" — whatever the announced length (16384 included). -/
+theorem record_header_prefix_incomplete (dtls : Bool) (pre c : Bytes) (k : Nat)
+    (hpre : pre.length + 2 = hdrLen dtls) (hstart : startsLike dtls pre = true)
+    (hpos : 0 < c.length) (hmax : c.length ≤ 65535) (hk : k < c.length) :
+    nextRecord dtls (pre ++ w16 c.length ++ c.take k) = .incomplete := by
+  have h5 := hdrLen_pos dtls
+  have hhdr : (pre ++ w16 c.length).length = hdrLen dtls := by simp [w16]; omega
+  unfold nextRecord
+  simp only
+  rw [List.take_left' hhdr]
+  have hlen : ((pre ++ w16 c.length) ++ c.take k).length = hdrLen dtls + k := by
+    rw [List.length_append, hhdr, List.length_take]; omega
+  rw [hlen, if_neg (by omega), startsLike_append dtls pre _ (by omega), hstart]
+  have hg1 : (pre ++ w16 c.length).getD (hdrLen dtls - 2) 0 = UInt8.ofNat (c.length / 256) := by
+    have : hdrLen dtls - 2 = pre.length := by omega
+    rw [this]; simp [w16, List.getD_eq_getElem?_getD]
+  have hg2 : (pre ++ w16 c.length).getD (hdrLen dtls - 1) 0 = UInt8.ofNat (c.length % 256) := by
+    have : hdrLen dtls - 1 = pre.length + 1 := by omega
+    rw [this]; simp [w16, List.getD_eq_getElem?_getD]
+  rw [hg1, hg2, be16_w16 _ (by omega)]
+  simp only [if_false, Bool.true_eq_false]
+  rw [if_neg (by omega), if_pos (by omega)]
+
+example : nextRecord false ([0x16, 3, 3] ++ w16 (List.replicate 16384 (7 : UInt8)).length ++ (List.replicate 16384 7).take 0) = .incomplete :=
+  record_header_prefix_incomplete false [0x16, 3, 3] (List.replicate 16384 7) 0 (by decide) (by decide) (by rw [List.length_replicate]; omega) (by rw [List.length_replicate]; omega) (by rw [List.length_replicate]; omega)
 
 /-! ## DTLS handshake fragmentation (finding F-C13a) -/
 
